@@ -18,9 +18,9 @@ ASSUMPTIONS = ["A1, A2 and the body-token conventions of C01",
                "do_commit = read head, write commit object, compare-and-set ref (as in dulwich's source)"]
 
 
-def body_commit_step(c0, c1, c2, target, body):
+def body_commit_step(c0, c1, c2, target, body, hist):
     kind, op, cond = ctx.PART
-    f = _store.step(kind, [c0, c1, c2], ctx.b.n, op, target, body, cond)
+    f = _store.step(kind, [c0, c1, c2], ctx.b.n, op, target, body, cond, hist=hist)
     if f is None:
         return (True, "pre-invalid")
     changed = f["S2"] != f["S"]
@@ -44,13 +44,13 @@ def body_commit_step(c0, c1, c2, target, body):
     return (ok, _store.opname(op) + (":commit" if changed else ":nocommit"))
 
 
-def h_commit_step(c0: bytes, c1: bytes, c2: bytes, target: int, body: bytes) -> bool:
+def h_commit_step(c0: bytes, c1: bytes, c2: bytes, target: int, body: bytes, hist: int) -> bool:
     """
     pre: len(c0) <= ctx.b.blen and len(c1) <= ctx.b.blen and len(c2) <= ctx.b.blen and len(body) <= ctx.b.blen
-    pre: 0 <= target < ctx.b.n + 3
+    pre: 0 <= target < ctx.b.n + 3 and 0 <= hist <= 2
     post: _
     """
-    return run(body_commit_step, c0, c1, c2, target, body)
+    return run(body_commit_step, c0, c1, c2, target, body, hist)
 
 
 HARNESSES = [
